@@ -6,7 +6,8 @@
 From Coq Require Import ZArith NArith String List Bool.
 Import ListNotations.
 From TP Require Import Base.PyVal Fields.FieldAst Fields.SetChain Fields.Doc Fields.Domain
-  Struct.Shapes Struct.Instance Struct.Entry Struct.InstanceProofs Struct.NestedProofs.
+  Struct.Shapes Struct.Instance Struct.Entry Struct.InstanceProofs Struct.NestedProofs
+  Struct.EntrySites Struct.EntrySitesProofs Gen.EntrySites Struct.EntrySitesToday.
 Local Open Scope string_scope.
 
 (* Where the line between theorem and correspondence is:
@@ -83,6 +84,43 @@ Section C01.
   Proof. exact (chain_deep_sound re_match e). Qed.
 End C01.
 
+(* ------------------------------------------------------------------ tie of the entry points to the source
+   The model above ASSUMES that every entry point funnels into the validating constructor (or is one of
+   the recognised copy idioms).  That assumption is a table, read off the AST of the working tree on
+   every run (Gen/EntrySites.v): one row per entry point, the kinds of its `return` statements.  The
+   model parametrised by ANY such table ... *)
+Section C01_sites.
+  Variable re_match : N -> pystr -> bool.
+  Variable e : env.
+
+  (* ... is sound whenever the table is safe: single entry points and chains of any length *)
+  Theorem C01_entry_sites_sound : forall t unp cur en x,
+      sites_ok t unp = true ->
+      entry_dom re_match e cur en = true ->
+      (match entry_plan e cur en with PValue _ => inst_ok re_match e cur = true | _ => True end) ->
+      run_entry_sites re_match e t unp cur en = Ok x -> inst_ok re_match e x = true.
+  Proof. exact (fun t unp => entry_sites_sound re_match e t unp). Qed.
+
+  Theorem C01_chain_sites_sound : forall t unp ch x0 x,
+      sites_ok t unp = true ->
+      inst_ok re_match e x0 = true -> chain_dom re_match e x0 ch = true ->
+      run_chain_sites re_match e t unp x0 ch = Ok x -> inst_ok re_match e x = true.
+  Proof. exact (fun t unp => chain_sites_sound re_match e t unp). Qed.
+End C01_sites.
+
+(* ... and violates C01 on a constructed input whenever it is not (valid current instance, or none;
+   the entry point returns; the result is rejected by the spec) *)
+Theorem C01_sites_characterisation : forall re_match t unp,
+    sites_ok t unp = false ->
+    exists k x, (wit_cur k = PNone \/ inst_ok re_match wit_env (wit_cur k) = true) /\
+                run_entry_sites re_match wit_env t unp (wit_cur k) (wit_entry k) = Ok x /\
+                inst_ok re_match wit_env x = false.
+Proof. exact sites_characterisation. Qed.
+
+(* today's table (regenerated from the working tree before this file is compiled) is safe *)
+Theorem C01_entry_sites_today : sites_ok entry_sites default_unpickle = true.
+Proof. exact entry_sites_today. Qed.
+
 (* The [stable] hypothesis cannot be dropped: Array(items=Boolean(), uniqueItems=True) given
    [True, 'True'] stores [True, True]. *)
 Definition cex_field : field := FSeqEach SeqList FBoolean no_sizec true.
@@ -103,6 +141,10 @@ Print Assumptions C01_chain_from_ctor_sound.
 Print Assumptions C01_field_refuted.
 Print Assumptions C01_vset_keeps_nested_valid.
 Print Assumptions C01_chain_deep_sound.
+Print Assumptions C01_entry_sites_sound.
+Print Assumptions C01_chain_sites_sound.
+Print Assumptions C01_sites_characterisation.
+Print Assumptions C01_entry_sites_today.
 
 (* ------------------------------------------------------------------ non-vacuity *)
 
@@ -157,4 +199,20 @@ Example C01_nonvacuous :
   inst_ok (fun _ _ => true) ex_env (PStruct (s2p "Point") [(s2p "x", PNum (NInt 1)); (s2p "y", PNum (NFlt (-1) 0))]) = false /\
   inst_ok (fun _ _ => true) ex_env (PStruct (s2p "Point") [(s2p "y", PNum (NFlt 1 0))]) = false /\
   inst_ok (fun _ _ => true) ex_env (PStruct (s2p "Point") [(s2p "x", PNum (NInt 1)); (s2p "_skip_validation", PBool true)]) = false.
+Proof. repeat split; vm_compute; reflexivity. Qed.
+
+(* the site table is not trivially safe: a cast_to with a trusted return makes the table unsafe, and the
+   parametric model then hands out Strict(a='x') *)
+Definition ex_bad_sites : site_table :=
+  (fn_cast, [XTrusted; XCtor]) :: filter (fun r => negb (pystr_eqb (fst r) fn_cast)) entry_sites.
+
+Example C01_sites_nonvacuous :
+  sites_ok ex_bad_sites true = false /\
+  run_entry_sites (fun _ _ => true) wit_env ex_bad_sites true (wit_cur KCast) (wit_entry KCast) =
+    Ok (PStruct (s2p "Strict") [(flag_trusted, PBool true); (s2p "a", PStr (s2p "x"))]) /\
+  run_entry_sites (fun _ _ => true) wit_env entry_sites default_unpickle (wit_cur KCast) (wit_entry KCast) =
+    Raise TypeError /\
+  chain_dom (fun _ _ => true) ex_env PNone ex_chain = true /\
+  run_chain_sites (fun _ _ => true) ex_env entry_sites default_unpickle PNone ex_chain =
+    run_chain (fun _ _ => true) ex_env PNone ex_chain.
 Proof. repeat split; vm_compute; reflexivity. Qed.
